@@ -766,7 +766,11 @@ def simplify_constrained_range(source: str) -> str:
             continue
 
         redundant_conditions = set()
-        for condition in core.filter_nodes(conditions, templates):
+        # The conditions are folded into the bounds one after the other, so the result depends on
+        # their order. A set of nodes is ordered by memory address, source order is reproducible.
+        for condition in sorted(
+            core.filter_nodes(conditions, templates), key=lambda n: (n.lineno, n.col_offset)
+        ):
             if isinstance(condition.left, ast.Constant):
                 comparator = condition.left
             else:
